@@ -48,7 +48,7 @@ def main():
         "engines": [{"name": "coq-model", "path": "/verif/coq", "serves_properties": sorted(CLAIMS),
                      "kind_free_text": "Coq 8.16 development: executable Gallina model (Model/), specs (Spec/), proofs (Proofs/), property theorems (Props/), extracted to OCaml (ocaml/driver.ml) and driven by the Python harness vlib/ against /repo/src"}],
         "checks": checks,
-        "notes": "Every check: regenerate Gen/*.v from /repo, make, compile Props/<id>.v (Print Assumptions), correspondence implementation vs extracted model, property oracles on the implementation, known-finding witnesses (known_findings.json).",
+        "notes": "Every check: regenerate Gen/*.v from /repo, make, compile Props/<id>.v (Print Assumptions), correspondence implementation vs extracted model, property oracles on the implementation, known-finding witnesses (findings/KF-*.json, one file per finding; known_findings.json is the generated one-file index).",
         "not_applicable": na,
     }
     json.dump(m, open(os.path.join(VERIF, "MANIFEST.json"), "w"), indent=1)
